@@ -654,6 +654,15 @@ def scan() -> List[M]:
         M("C02", "scan-tcp-multi-count-doubled", P, "            create_modbus_tcp_multi_request(comm_addr, MODBUS_WRITE_MULTI_CMD, offset, values),\n            MODBUS_WRITE_MULTI_CMD, offset, len(values) // 2)",
           "            create_modbus_tcp_multi_request(comm_addr, MODBUS_WRITE_MULTI_CMD, offset, values),\n            MODBUS_WRITE_MULTI_CMD, offset, len(values) * 2)", "C02.R5"),
         M("C04", "scan-retry-reset-to-minus-one", P, "            logger.debug(\"Response already received.\")\n            self._retry = 0", "            logger.debug(\"Response already received.\")\n            self._retry = -1", "C04.R4"),
+        M("C07", "scan-rtu-first-fragment-5-bytes-refused", MB, "    if len(data) <= 4:", "    if len(data) <= 5:", "C07.R3"),
+        M("C07", "scan-tcp-first-fragment-9-bytes-refused", MB, "    if len(data) <= 8:", "    if len(data) <= 9:", "C07.R3"),
+        M("C07", "scan-udp-fragment-never-joined", P, "                data = self._partial_data + data\n", "                pass\n", "C07.R2", count=2),
+        M("C03", "scan-aa55-write-mask-drops-bit", P, "{value & 0xFFFF:04x}", "{value & 0xFFFE:04x}", "C03.R2"),
+        M("C09", "scan-connect-guard-and", P, "        if not self._transport or self._transport.is_closing():", "        if not self._transport and self._transport.is_closing():", "C09.R6", count=2),
+        M("C09", "scan-release-guard-or", P, "        finally:\n            if self._lock and self._lock.locked():\n                self._lock.release()\n            if not self.keep_alive:",
+          "        finally:\n            if self._lock or self._lock.locked():\n                self._lock.release()\n            if not self.keep_alive:", "C09.R6"),
+        M("C02", "scan-execute-result-never-read", P, "            result = response_future.result()\n", "            result = None\n", "C02.R8"),
+        M("C09", "scan-map-response-swapped-arguments", ET, "data.update(self._map_response(response, self._sensors_battery))", "data.update(self._map_response(self._sensors_battery, response))", "C09.R1|error"),
         M("C16", "scan-dt-id-map-never-built", DT, "        self._sensors_map = {s.id_: s for s in self.sensors()}\n        return self._sensors_map.get(sensor_id)", "        return self._sensors_map.get(sensor_id)", "C16.R5"),
     ]
 
